@@ -128,8 +128,11 @@ void oracle_value_equality(World& w)
    for (std::size_t i = 0; i < cap(w.transfers.size()); ++i)
       for (std::size_t j = 0; j < cap(w.transfers.size()); ++j) {
          auto &a = *w.transfers[i], &b = *w.transfers[j];
-         const bool same = xkey(a) == xkey(b);
-         if ((a == b) != same) report("Transfer", printable(xkey(a)) + " vs " + printable(xkey(b)));
+         // "spelled the same": by the spellings the transfers were requested with (what they report about themselves is C02's business)
+         auto sa = w.transfer_spelled.find(&a), sb = w.transfer_spelled.find(&b);
+         const std::string ka = sa != w.transfer_spelled.end() ? sa->second : xkey(a), kb = sb != w.transfer_spelled.end() ? sb->second : xkey(b);
+         const bool same = ka == kb;
+         if ((a == b) != same) report("Transfer", printable(ka) + " vs " + printable(kb));
          if ((a != b) == (a == b)) report("Transfer", "!= is not the negation of ==");
       }
    for (std::size_t i = 0; i < cap(w.logos.size()); ++i)
